@@ -27,7 +27,7 @@ TARGETS = ['valjean.javert.table_repr:repr_testresultequal', 'valjean.javert.tab
            'valjean.javert.rst:Rst.format_result']
 BOUNDS = {'quick': {'kinds': KINDS, 'datasets': '1-d 3 bins with 1 or 2 compared datasets; 2-d (2,2) with 1 dataset', 'failing pattern': 'every subset of bins',
                     'verbosity': 'all 6 levels', 'representers': ['TableRepresenter', 'FullTableRepresenter'],
-                    'slices': 'every unit-step slice of a 3-row table; join of two tables',
+                    'slices': 'every slice of a 3-row table with step 1, 2, -1, -2; join of a table with such a slice',
                     'joins of result tables': 'tables of two results of the same kind (Student, Bonferroni, metadata, the three statistics kinds) joined at DEFAULT / INTERMEDIATE / FULL_DETAILS'},
           'thorough': {'kinds': KINDS, 'datasets': 'as quick + 2-d with 2 datasets + scalar', 'verbosity': 'all 6 levels'}}
 ASSUMPTIONS = ['cell values are concrete distinct numbers so that rows can be recognised after formatting (Bonferroni / Holm 1-d jobs: optionally NaN in the first failing bin); the failing pattern, kind, verbosity and slice are solver-chosen',
@@ -212,6 +212,33 @@ def make_harness(kind, shape, nds):
                             left.remove(hit[0])
                     ex.check(len(marked) == len(want) and not left,
                              'marked-text-rows-are-the-failing-bins-with-their-values')
+        if kind == 'metadata' and v != Verbosity.SILENT:
+            # detailed metadata tables (one column per sample): under the header of EACH sample stand the values of that sample, a
+            # row carries a mark exactly when the samples differ on that key (on the cells the test recorded as different), a reduced table shows the failing keys
+            md = info['md']
+            ref = list(md)[0]
+            for t in [t for t in templates if isinstance(t, TableTemplate) and len(t.headers) == 1 + len(md) and t.headers[0] == 'key']:
+                keys = [str(k) for k in t.columns[0]]
+                good = sorted(t.headers[1:]) == sorted(md) and len(set(keys)) == len(keys) and set(keys) <= set(md[ref])
+                if good:
+                    for c, name in enumerate(t.headers[1:], start=1):
+                        cells = [str(x) for x in t.columns[c]]
+                        marks = [bool(x) for x in np.asarray(t.highlights[c]).reshape(-1)]
+                        # (which of the differing cells carries the mark is the test's own record: the comparison is made with the
+                        # first sample in sorted order)
+                        if cells != [str(md[name][k]) for k in keys] or marks != [not res.dict_res[k][name] for k in keys]:
+                            good = False
+                    for r, k in enumerate(keys):
+                        row_marked = any(bool(np.asarray(t.highlights[c]).reshape(-1)[r]) for c in range(1, len(t.headers)))
+                        if row_marked != (len({str(md[name][k]) for name in md}) > 1):
+                            good = False
+                    if any(bool(x) for x in np.asarray(t.highlights[0]).reshape(-1)):
+                        good = False
+                    if len(keys) < len(md[ref]) and sorted(keys) != sorted(info['bad_keys']):
+                        good = False
+                    if not set(info['bad_keys']) <= set(keys):
+                        good = False
+                ex.check(good, 'metadata-table-shows-each-sample-under-its-own-header-and-marks-the-differing-cells')
         if kind in ('stats_tasks', 'stats_tests') and v != Verbosity.SILENT:
             tabs = [t for t in templates if isinstance(t, TableTemplate)]
             if tabs:
@@ -239,19 +266,22 @@ def make_slice_harness():
         lo = bounds[ex.choice(len(bounds), 'start')]
         hi = bounds[ex.choice(len(bounds), 'stop')]
         op = ex.choice(3, 'op')
+        # unit steps, strides and BACKWARD slices (the formatter walks arrays in memory order: rows are matched as a multiset)
+        st = [None, 2, -1, -2][ex.choice(4, 'step')]
+        sl = slice(lo, hi, st)
         if op == 0:
-            s = t[slice(lo, hi)]
-            want_vals = list(vals[lo:hi])
-            want_flags = flags[lo:hi]
+            s = t[sl]
+            want_vals = list(vals[sl])
+            want_flags = flags[sl]
         elif op == 1:
             s = t.copy()
-            s.join(t[slice(lo, hi)])
-            want_vals = list(vals) + list(vals[lo:hi])
-            want_flags = flags + flags[lo:hi]
+            s.join(t[sl])
+            want_vals = list(vals) + list(vals[sl])
+            want_flags = flags + flags[sl]
         else:
-            s = t[slice(lo, hi)].copy()
-            want_vals = list(vals[lo:hi])
-            want_flags = flags[lo:hi]
+            s = t[sl].copy()
+            want_vals = list(vals[sl])
+            want_flags = flags[sl]
         ok = [float(x) for x in s.columns[1]] == [float(x) for x in want_vals] and \
             all(np.size(h) == len(want_vals) for h in s.highlights) and \
             [bool(x) for x in np.asarray(s.highlights[1]).reshape(-1)] == want_flags
@@ -260,9 +290,19 @@ def make_slice_harness():
             _check_read_back(ex, RstTable, [s])
             text = str(RstTable(s))
             marked = [ln for ln in text.splitlines() if ':hl:' in ln]
-            ex.check(len(marked) == sum(want_flags) and
-                     all(_row_has(ln, v) for v, ln in zip([v for v, f in zip(want_vals, want_flags) if f], marked)),
-                     'formatted-sliced-table-marks-the-right-rows')
+            flagged = [v for v, f in zip(want_vals, want_flags) if f]
+            good = len(marked) == len(flagged)
+            if good:
+                # every marked row shows one flagged value, each flagged value once (multiset: the printing order of a
+                # backward slice is the memory order of the underlying array)
+                left = list(flagged)
+                for ln in marked:
+                    hit = [v for v in left if _row_has(ln, v)]
+                    if not hit:
+                        good = False
+                        break
+                    left.remove(hit[0])
+            ex.check(good, 'formatted-sliced-table-marks-the-right-rows')
     return harness
 
 
